@@ -75,7 +75,7 @@ def ties_world(rng, n, style=None):
 		# real-size signatures: distances that differ by 1e-6 .. 1e-5 (distinct float32 values that agree to 5 decimals)
 		k, prefix = 11, 'AT'
 		m = rng.choice([1000, 2000, 4000]) if n <= 300 else 1000
-		nq = rng.randint(1, 2)
+		nq = 1
 	w = W.World(k, prefix)
 	W.gen_taxonomy(rng, w, nt=rng.randint(1, 6), names='plain')
 	combos = [(rng.randint(0, m), rng.randint(0, 3)) for _ in range(rng.choice([1, 2, 3, 5]))]
@@ -86,8 +86,10 @@ def ties_world(rng, n, style=None):
 		sig = set()
 		for j in range(nq):
 			if style == 'near-ties':
-				a0, b = rng.choice(combos) if rng.random() < 0.9 else (rng.randint(0, m), 0)
-				a, b = max(a0 - rng.randint(0, 2), 0), rng.randint(0, 3)
+				# family t: (a, b) = (m - t + j, j) has distance t / (m + j): members differ by about t / m^2 (1e-6 for m = 1000)
+				t = rng.choice([2, 3, 3, m // 2]) if rng.random() < 0.9 else rng.randint(0, m)
+				b = rng.randint(0, min(t, 3))
+				a = m - t + b
 			elif style == 'all-equal':
 				a, b = combos[0]
 			elif style == 'all-one':
